@@ -113,6 +113,31 @@ func sdInfo(name, machine, process, eps string, id uint32) dir.ServiceInfo {
 	return i
 }
 
+// sdShow: everything a ServiceInfo says, so that a list or a lookup that lags behind an update shows;
+// services the hosting server registered itself carry its machine, process and address: "host"
+func sdShow(s dir.ServiceInfo) string {
+	if s.MachineId != "" && s.MachineId != "m" && s.MachineId != "m2" {
+		return fmt.Sprintf("%d:%s:host", s.ServiceId, s.Name)
+	}
+	m := s.MachineId
+	if m == "" {
+		m = "-"
+	}
+	var eps []string
+	for _, e := range s.Endpoints {
+		if e == "" {
+			eps = append(eps, "E")
+		} else {
+			eps = append(eps, strings.TrimPrefix(e, "tcp://192.0.2.1:"))
+		}
+	}
+	e := strings.Join(eps, ",")
+	if len(eps) == 0 {
+		e = "-"
+	}
+	return fmt.Sprintf("%d:%s:%s:%d:%s", s.ServiceId, s.Name, m, s.ProcessId, e)
+}
+
 func execSd(op string) func(a []string) string {
 	return func(a []string) string {
 		w := sdw
@@ -158,7 +183,7 @@ func execSd(op string) func(a []string) string {
 			if err != nil {
 				return "err"
 			}
-			return fmt.Sprintf("%d", i.ServiceId)
+			return sdShow(i)
 		case "services":
 			l, err := w.sd.Services()
 			if err != nil {
@@ -166,7 +191,7 @@ func execSd(op string) func(a []string) string {
 			}
 			parts := make([]string, len(l))
 			for i, s := range l {
-				parts[i] = fmt.Sprintf("%d:%s", s.ServiceId, s.Name)
+				parts[i] = sdShow(s)
 			}
 			return strings.Join(parts, " ")
 		case "lnew":
